@@ -142,6 +142,9 @@ func genC02(seed int64, tier string) *Scenario {
 			continue
 		}
 		switch k := r.Intn(23); {
+		case k == 19: // select all + delete
+			sc.Ops = append(sc.Ops, Op{Kind: "clear", Path: d})
+			model[d] = []byte{}
 		case k == 20: // the file of the open document is deleted on disk; the editor keeps the buffer
 			sc.Ops = append(sc.Ops, Op{Kind: "fsremove", Path: d}, Op{Kind: "deliver"})
 		case k == 21: // a settings change rebuilds the server's project while documents are open
